@@ -120,6 +120,9 @@ def one(ctx, kind, data, do_model=True, region_only=None):
             want = [(a + off, b + off) for a, b in spec_js(region)]
         else:
             want = spec_js(data)
+            if do_model:
+                # the Lean reference segmentation (the `strChars` of theorem C16_js_exact) against this independent tokenizer
+                ctx.expect("jsspec", "jsspec " + enc_bytes(data), ",".join(f"{a}:{b - a}" for a, b in want) + ".", dict(case, what="reference segmentation"))
         got = reducible_spans(t)
         if got != want:
             ctx.fail("js-atoms", f"reducible spans {got} of {data!r}; the reference tokenizer gives {want} "
